@@ -672,6 +672,22 @@ void naive_case(vt::Rng& rng, int64_t icase)
         auto       dataset = make_dataset(*D.source, threads);
         auto       it      = flatten_iterator_t{*dataset, samples};
         it.batch(batch);
+        // a third of the iterators has a history: inputs / targets cached under another scaling method, then the method is changed and
+        // re-caching is refused (budget too small) or not asked for - the values must be those of the current method whatever was cached
+        const auto history = rng.range(0, 5);
+        if (history <= 1)
+        {
+            const auto other = rng.pick(std::vector<scaling_type>{scaling_type::none, scaling_type::mean, scaling_type::minmax, scaling_type::standard});
+            it.scaling(other);
+            it.cache_flatten(std::numeric_limits<tensor_size_t>::max());
+            it.cache_targets(std::numeric_limits<tensor_size_t>::max());
+            it.scaling(mode);
+            if (history == 1)
+            {
+                it.cache_flatten(rng.coin() ? tensor_size_t{0} : tensor_size_t{8});
+                it.cache_targets(rng.coin() ? tensor_size_t{0} : tensor_size_t{8});
+            }
+        }
         it.scaling(mode);
         if (cachex)
         {
@@ -707,6 +723,17 @@ void naive_case(vt::Rng& rng, int64_t icase)
         // gboost bias objective: mean_i loss(t_i, b)
         auto tit = targets_iterator_t{*dataset, samples};
         tit.batch(batch);
+        if (history <= 1)
+        {
+            // (the same history on the targets iterator of the gradient boosting objectives)
+            tit.scaling(rng.pick(std::vector<scaling_type>{scaling_type::none, scaling_type::mean, scaling_type::minmax, scaling_type::standard}));
+            tit.cache_targets(std::numeric_limits<tensor_size_t>::max());
+            tit.scaling(mode);
+            if (history == 1)
+            {
+                tit.cache_targets(rng.coin() ? tensor_size_t{0} : tensor_size_t{8});
+            }
+        }
         tit.scaling(mode);
         if (cachet)
         {
